@@ -112,6 +112,19 @@ func dispHistCfgs(prop, tier string) []*histCfg {
 	}
 	out = append(out, &histCfg{Name: prop + "-hist/churn", Spec: dispSpec(false), Depth: churnDepth, Final: dispFinal, Oracle: dispOracle(prop),
 		AutoGet: &Op{Kind: "get", T: "D2"}, AlphaFn: churnAlphabet})
+	if prop == "C11" {
+		// a scope whose creation FAILS in an initializer after earlier initializers (and their dependencies)
+		// created disposables: the half-built scope is torn down in reverse creation order, too
+		for _, reg := range []int{5, 7} {
+			for serial := 1; serial <= 3; serial++ {
+				for _, kind := range []string{"err", "panic:string"} {
+					out = append(out, &histCfg{Name: fmt.Sprintf("%s-hist/fault-r%d#%d-%s", prop, reg, serial, kind), Spec: dispSpec(true),
+						Faults: map[string]string{fmt.Sprintf("%d:%d", reg, serial): kind}, Probes: dispProbes[:3], MaxScopes: 3, Depth: depth - 2,
+						CtxKinds: []string{""}, Final: dispFinal, Oracle: dispOracle(prop)})
+				}
+			}
+		}
+	}
 	if prop == "C10" {
 		// a multi-output constructor (result object / multiple returns / result object with error) whose
 		// SECOND output is nil on its first invocation: the constructor runs again for that output and
@@ -423,6 +436,54 @@ func c12Oracle(e *Env, s *vsched.Sched) []Finding {
 	return out
 }
 
+// c12Timely is the completeness clause on stamps, for sequential histories: when the first Close of
+// a node has returned, every disposable that node's subtree owned at that moment has been attempted
+// (not merely "by the end of the run", when the provider's Close has swept up what was forgotten),
+// and the Close returned an error exactly when one of those attempts failed.
+func c12Timely(e *Env) []Finding {
+	var out []Finding
+	seen := map[string]bool{}
+	for _, r := range e.Results {
+		if r.Op.Kind != "close" || r.Skipped || r.Panic != nil || seen[r.Op.Scope] {
+			continue
+		}
+		seen[r.Op.Scope] = true
+		failedInWindow := false
+		for _, in := range e.W.Insts {
+			if in.Given || !in.Disp || in.Created > r.Start {
+				continue
+			}
+			owner := e.ownerOf(in)
+			covered := owner == r.Op.Scope
+			if r.Op.Scope == "" {
+				covered = true
+			} else {
+				for _, a := range e.ancestors(owner) {
+					if a == r.Op.Scope {
+						covered = true
+					}
+				}
+			}
+			if !covered {
+				continue
+			}
+			if len(in.Closes) == 0 || in.Closes[0].Stamp > r.End {
+				out = append(out, Finding{feat("clause", "owned-instance-open-after-close"),
+					fmt.Sprintf("%s returned, but %s (owner %s, created before it started) had not been closed by then", r.Op, in.Label(), owner)})
+				continue
+			}
+			if e.W.CloseFail[in.Label()] && in.Closes[0].Stamp > r.Start {
+				failedInWindow = true
+			}
+		}
+		if failedInWindow != (r.Err != nil) {
+			out = append(out, Finding{feat("clause", "close-verdict", "want-error", fmt.Sprint(failedInWindow)),
+				fmt.Sprintf("%s returned %v; a failing instance of its subtree was closed during it: %v", r.Op, r.Err, failedInWindow)})
+		}
+	}
+	return out
+}
+
 func keys(m map[string]bool) []string {
 	var l []string
 	for k, v := range m {
@@ -604,6 +665,23 @@ func c12Scenarios() []*Scenario {
 func c12Jobs(tier string) []mc.Job {
 	var jobs []mc.Job
 	jobs = append(jobs, mc.Job{Name: "C12-reentrant-close", Run: c12Reentrant})
+	{
+		// scope churn under one parent (children created and closed in every order, then the parent), every
+		// scoped instance failing its Close / none failing: judged on stamps
+		churnDepth := 7
+		if tier == "thorough" {
+			churnDepth = 9
+		}
+		var all []string
+		for i := 1; i <= 9; i++ {
+			all = append(all, fmt.Sprintf("r2#%d.0", i))
+		}
+		for name, fail := range map[string][]string{"all-fail": all, "none-fail": nil, "odd-fail": {all[0], all[2], all[4], all[6]}} {
+			jobs = append(jobs, (&histCfg{Name: "C12-hist/churn-" + name, Spec: dispSpec(false), Depth: churnDepth, Final: dispFinal, CloseFail: fail,
+				AutoGet: &Op{Kind: "get", T: "D2"}, AlphaFn: churnAlphabet,
+				Oracle: func(e *Env, s *vsched.Sched, h []Op) []Finding { return append(c12Oracle(e, s), c12Timely(e)...) }}).jobs()...)
+		}
+	}
 	for _, f := range []string{"s1", "s2", "s3", "prov", "cancel"} {
 		f := f
 		jobs = append(jobs, mc.Job{Name: "C12-seq/first-" + f, Weight: 5, Run: func(r *mc.Report) { c12Seq(r, []string{f}, "C12") }})
